@@ -7,6 +7,7 @@ import (
 	"context"
 	"crypto/sha1"
 	"fmt"
+	"sync"
 	"time"
 
 	"github.com/gopcua/opcua/ua"
@@ -31,6 +32,7 @@ type c07Msg struct {
 }
 
 type c07Run struct {
+	ForC20  bool     `json:"c20_variant"` // mostly unsecured channels and single chunk messages: where decoded values alias transport buffers
 	Cfg     secCfg   `json:"cfg"`
 	Chunk   uint32   `json:"chunk_size"`
 	Msgs    []c07Msg `json:"msgs"`
@@ -59,10 +61,16 @@ func (r *c07Run) Setup(s *sim.Sim) {
 	s.DrawPolicy()
 	loadKeys()
 	r.Cfg = drawSecCfg(p, p.Intn(6) != 0)
+	if r.ForC20 && p.Intn(4) != 0 {
+		r.Cfg = allSecCfgs()[0]
+	}
 	r.Chunk = sim.Pick(p, uint32(8192), 8192, 8193, 8200, 16384, 65535, 65536, 100000, 1<<20)
 	r.SegMode = p.Intn(3)
 	r.MaxBody = refMaxBody(r.Cfg, int(r.Chunk))
 	n := 1 + p.Intn(5)
+	if r.ForC20 {
+		n += 2
+	}
 	for i := 0; i < n; i++ {
 		m := c07Msg{Response: p.Bool(), K: p.Intn(4), D: p.Intn(81) - 40}
 		if p.Chance(1, 4) {
@@ -70,6 +78,10 @@ func (r *c07Run) Setup(s *sim.Sim) {
 		}
 		if r.Chunk > 100000 && m.K > 1 {
 			m.K = 1
+		}
+		if p.Chance(1, 3) || (r.ForC20 && p.Intn(4) != 0) {
+			// a single chunk message with a substantial payload
+			m.K, m.D = 0, 200+p.Intn(r.MaxBody-400)
 		}
 		r.Msgs = append(r.Msgs, m)
 	}
@@ -136,6 +148,24 @@ func (r *c07Run) Main(s *sim.Sim) {
 		err     error
 	}
 	srvResults := make(chan srvGot, 64)
+	// C20: every delivered message is kept together with a snapshot of its
+	// encoding taken at delivery; both are compared after all later traffic
+	type kept struct {
+		what string
+		msg  any
+		snap []byte
+	}
+	var keptMu sync.Mutex
+	var keep []kept
+	retain := func(what string, msg any) {
+		b, err := encodeService(msg)
+		if err != nil {
+			return
+		}
+		keptMu.Lock()
+		keep = append(keep, kept{what, msg, b})
+		keptMu.Unlock()
+	}
 	respSize := map[uint32]int{}
 	for i, m := range r.Msgs {
 		if m.Response {
@@ -164,13 +194,10 @@ func (r *c07Run) Main(s *sim.Sim) {
 		m := &r.Msgs[i]
 		m.size = m.K*r.MaxBody + m.D
 	}
-	go func() {
-		conn, err := l.Accept(ctx)
-		if err != nil {
-			return
-		}
+	serveConn := func(conn *uacp.Conn, chanID uint32) {
 		errch := make(chan error, 16)
-		sc, err := uasc.NewServerSecureChannel("", conn, srvCfg, errch, 4242, 100, 7)
+		cfgCopy := *srvCfg
+		sc, err := uasc.NewServerSecureChannel("", conn, &cfgCopy, errch, chanID, 100, 7)
 		if err != nil {
 			return
 		}
@@ -184,6 +211,7 @@ func (r *c07Run) Main(s *sim.Sim) {
 			if !ok {
 				continue
 			}
+			retain(fmt.Sprintf("request delivered by the server channel %d", chanID), wr)
 			g := srvGot{marker: wr.NodesToWrite[0].NodeID.IntID()}
 			g.payload, _ = wr.NodesToWrite[0].Value.Value.Value().([]byte)
 			srvResults <- g
@@ -198,6 +226,15 @@ func (r *c07Run) Main(s *sim.Sim) {
 				srvResults <- srvGot{err: fmt.Errorf("send response: %w", err)}
 				return
 			}
+		}
+	}
+	go func() {
+		for id := uint32(4242); ; id++ {
+			conn, err := l.Accept(ctx)
+			if err != nil {
+				return
+			}
+			go serveConn(conn, id)
 		}
 	}()
 	d := &uacp.Dialer{ClientACK: &uacp.Acknowledge{ReceiveBufSize: r.Chunk, SendBufSize: r.Chunk}}
@@ -240,6 +277,7 @@ func (r *c07Run) Main(s *sim.Sim) {
 		err := sc.SendRequestWithTimeout(ctx, req, nil, 20*time.Second, func(v ua.Response) error {
 			if rr, ok := v.(*ua.ReadResponse); ok && len(rr.Results) == 1 && rr.Results[0].Value != nil {
 				got, gotOK = rr.Results[0].Value.Value().([]byte)
+				retain("response delivered by the client channel", rr)
 			}
 			return nil
 		})
@@ -270,6 +308,40 @@ func (r *c07Run) Main(s *sim.Sim) {
 		}
 		s.Probe("round-trip-ok")
 	}
+	// more traffic on another connection, then the comparison (C20)
+	if conn2, err := d.Dial(ctx, srvURL); err == nil {
+		if sc2, err := uasc.NewSecureChannel(srvURL, conn2, cfg, make(chan error, 16)); err == nil {
+			octx, cancel := context.WithTimeout(ctx, 20*time.Second)
+			if sc2.Open(octx) == nil {
+				for k := 0; k < 3; k++ {
+					req, _ := c07Request(uint32(900+k), 3000+k*5000)
+					sc2.SendRequestWithTimeout(ctx, req, nil, 10*time.Second, func(v ua.Response) error { return nil })
+					select {
+					case <-srvResults:
+					case <-time.After(2 * time.Second):
+					}
+				}
+				s.Probe("second-connection-traffic")
+			}
+			cancel()
+			sc2.Close()
+		}
+		conn2.Close()
+	}
+	keptMu.Lock()
+	for _, k := range keep {
+		now, err := encodeService(k.msg)
+		if err != nil || !bytes.Equal(now, k.snap) {
+			keptMu.Unlock()
+			s.Fail("C20", "delivered-message-changed", "aliases-transport-buffer", "a %s (%d bytes encoded) no longer encodes to what it encoded to when it was delivered (err=%v); %d messages were delivered afterwards; %s/%d chunk %d", k.what, len(k.snap), err, len(keep), r.Cfg.Policy, r.Cfg.Mode, r.Chunk)
+			return
+		}
+	}
+	nkept := len(keep)
+	keptMu.Unlock()
+	if nkept >= 2 {
+		s.Probe("retained-messages-unchanged")
+	}
 	if exact {
 		s.Probe("body-exact-multiple-of-max-body")
 	}
@@ -287,5 +359,6 @@ func (r *c07Run) Main(s *sim.Sim) {
 func (r *c07Run) Finish(s *sim.Sim) {}
 
 func init() {
+	Register(&Scenario{Name: "c20", Props: []string{"C20", "C07"}, Horizon: 10 * time.Minute, MaxSteps: 800000, New: func() Run { return &c07Run{ForC20: true} }, StuckProperty: "C07"})
 	Register(&Scenario{Name: "c07", Props: []string{"C07", "C08"}, Horizon: 10 * time.Minute, MaxSteps: 800000, New: func() Run { return &c07Run{} }, StuckProperty: "C07"})
 }
